@@ -7,6 +7,7 @@ R13.3  mock bodies raise: every path of _transform_to_mock that writes a `def` w
 R13.4  naming agreement: client class / module / Protocol / mock class names are derived from the canonical tag by the
        same functions in all six places
 R13.8  no function of visit/endpoint changes its IROperation (or an alias of one of its attributes) in place: the three renderings see one operation
+R13.9  the resolver's "this is the model's own module" decision compares the directory / package of the current file, not just its name
 R13.7  an instance-level memo table in the visit/endpoint generators is keyed by every parameter its value is computed from
 R13.6  a consumer that reads the nature from the one line closing a rendered signature obliges CodeWriter.write_function_signature to put the
        whole return annotation on that line (producer/consumer contract; not armed when every consumer joins the signature lines)
@@ -222,6 +223,7 @@ def run(repo: Repo, rep: Report, tier: str) -> None:
 
     rule_memo_keys(repo, rep, "R13.7")
     rule_ir_not_mutated(repo, rep, "R13.8")
+    rule_self_import_compares_the_package(repo, rep, "R13.9")
     # ---------------------------------------------------------------- R13.6 one-line sniffing obliges the signature writer
     # A consumer that looks for the return annotation in ONE rendered line (the line that closes the signature) relies on the
     # signature writer putting the whole annotation on that line; a consumer that joins the collected lines does not.
@@ -504,3 +506,46 @@ def rule_ir_not_mutated(repo: Repo, rep: Report, rule: str = "R13.8") -> None:
                       fn.loc(n))
     if not bad:
         rep.ok(rule, "visit/endpoint", f"{n_fn} functions receive an IROperation; none changes it (or an alias of one of its attributes) in place", "src/pyopenapi_gen/visit/endpoint:1")
+
+
+# ------------------------------------------------------------------------------------------------ R13.9 "same file" means the same file
+def rule_self_import_compares_the_package(repo: Repo, rep, rule: str = "R13.9") -> None:
+    """`_resolve_named_schema` leaves out the import of a model (and quotes its name) when the module being rendered *is* that model's module.
+    Tag modules (`endpoints/pets.py`), mock modules (`mocks/endpoints/mock_pets.py`) and model modules (`models/pets.py`) share stems - the
+    Petstore has tag `pets` and schema `Pets`.  Decided on the file name alone, the endpoint module is taken for the model module: the
+    client and its Protocol get `"Pets"` without an import (and `cast("Pets", response.json())` hands back raw dicts) while the mock, rendered
+    into another file name, gets the real class.  The decision must also look at where the current file lives (its directory / package)."""
+    sr = repo.module("types.resolvers.schema_resolver")
+    fn = sr.classes["OpenAPISchemaResolver"].methods.get("_resolve_named_schema") if "OpenAPISchemaResolver" in sr.classes else None
+    if fn is None:
+        raise AnalysisError(f"{rule}: anchor vanished: OpenAPISchemaResolver._resolve_named_schema")
+    L = Locals(fn.node)
+    # the flag that guards the `is_forward_ref=True` return
+    rets = [r for r in own_nodes(fn.node) if isinstance(r, ast.Return) and r.value is not None and any(
+        isinstance(k, ast.keyword) and k.arg == "is_forward_ref" and isinstance(k.value, ast.Constant) and k.value.value is True for c in ast.walk(r.value) if isinstance(c, ast.Call) for k in c.keywords)]
+    flags = set()
+    for r in rets:
+        p = parent(r)
+        while p is not None and not isinstance(p, ast.If):
+            p = parent(p)
+        if isinstance(p, ast.If):
+            flags |= {x.id for x in ast.walk(p.test) if isinstance(x, ast.Name)}
+    defs = [v for f_ in flags for _, v, _ in L.defs.get(f_, []) if v is not None and not isinstance(v, ast.Constant)]
+    if not rets or not defs:
+        raise AnalysisError(f"{rule}: the self-import decision of _resolve_named_schema (flag guarding the forward-reference return) was not found (anchor)")
+    sub = f"{sr.relpath}:_resolve_named_schema self-import decision"
+    ok = False
+    for v in defs:
+        vi = L.inline(v, depth=5, stop=tuple(L.params))
+        txt = norm(vi)
+        looks_at_dir = any(isinstance(c, ast.Call) and (dotted(c.func) or "").split(".")[-1] in ("dirname", "samefile", "relpath", "resolve", "abspath", "realpath") for c in ast.walk(vi)) \
+            or any(isinstance(a, ast.Attribute) and a.attr in ("parent", "parents", "parts") for a in ast.walk(vi)) or any(
+                isinstance(c, ast.Constant) and isinstance(c.value, str) and "models" in c.value for c in ast.walk(vi))
+        if looks_at_dir:
+            ok = True
+    if ok:
+        rep.ok(rule, sub, "the current file's directory / package is part of the comparison", fn.loc(defs[0]))
+    else:
+        rep.violation(rule, sub, f"{fn.fq}|self-import-by-basename",
+                      f"`{norm(defs[0])[:70]}`: only the file *name* is compared - a tag module `endpoints/pets.py` is taken for the model module `models/pets.py`: client and Protocol "
+                      "are annotated with the quoted name and no import (the client returns raw dicts through `cast`), the mock with the real class", fn.loc(defs[0]))
